@@ -4,6 +4,7 @@ import (
 	"crypto/ed25519"
 	"math/rand"
 	"net"
+	"sync/atomic"
 	"time"
 
 	"github.com/anacrolix/dht/v2"
@@ -115,6 +116,8 @@ func scenTokens(rng *rand.Rand, tr *sim.Trace, seg int, events int) {
 	o := opts{burst: -1, peerstore: true, announcecb: rng.Intn(2) == 0}
 	h := newH(rng, tr, seg, o)
 	defer h.close()
+	foreign := newQuietH(rng, opts{burst: -1, peerstore: true}, "45.9.9.10:4000")
+	defer foreign.close()
 	now := int64([]int{0, 1, 99, 100, 101, 250, 299}[rng.Intn(7)]) // base is 200 s into an interval: 100 = rotation instant
 	h.setClock(now)
 	_, priv, _ := ed25519.GenerateKey(rng)
@@ -127,9 +130,13 @@ func scenTokens(rng *rand.Rand, tr *sim.Trace, seg int, events int) {
 		}
 		other := h.randSrc()
 		otherTok := h.token(other, viaGet)
+		// a token another node issued to the same IP at the same time
+		foreign.clock = h.clock
+		foreignTok := foreign.token(src, viaGet)
 		delay := []int64{0, 1, 300, 599, 600, 601, 750, 899, 900, 901, 1200, 2000}[rng.Intn(12)]
 		now += delay
 		h.setClock(now)
+		atomic.StoreInt64(&foreign.clock, now)
 		tries := 1 + rng.Intn(3)
 		for j := 0; j < tries; j++ {
 			from := src
@@ -137,7 +144,7 @@ func scenTokens(rng *rand.Rand, tr *sim.Trace, seg int, events int) {
 				from = &net.UDPAddr{IP: src.IP, Port: 1024 + rng.Intn(60000)} // same IP, another port: must work
 			}
 			use := append([]byte{}, tok...)
-			switch rng.Intn(9) {
+			switch rng.Intn(10) {
 			case 0:
 				use[rng.Intn(len(use))] ^= 1 << uint(rng.Intn(8))
 			case 1:
@@ -150,6 +157,8 @@ func scenTokens(rng *rand.Rand, tr *sim.Trace, seg int, events int) {
 				use = nil
 			case 5:
 				from = other // the token of src used from another IP
+			case 6:
+				use = foreignTok
 			}
 			id, ih := randID(rng), randID(rng)
 			var q *query
@@ -339,4 +348,31 @@ func (h *H) inRaw(src *net.UDPAddr, b []byte, y string, t []byte) {
 	if !h.conn.Inject(b, src, 10*time.Second) {
 		fail("server read loop did not come back after a datagram from %v", src)
 	}
+}
+
+// C07, long history: one query stays outstanding while the node issues more than 2^16 further queries;
+// no later query may be given the outstanding one's transaction ID (ID space wrap-around).
+func scenWrap(rng *rand.Rand, tr *sim.Trace, seg int, n int) {
+	h := newH(rng, tr, seg, opts{burst: -1})
+	defer h.close()
+	held := h.call(h.randSrc(), "ping", dht.QueryInput{})
+	if !h.conn.WaitOut(1, 60*time.Second) {
+		fail("held query never written")
+	}
+	h.flush(false)
+	dst := h.randSrc()
+	for i := 0; i < n; i++ {
+		c := h.call(dst, "ping", dht.QueryInput{})
+		if !h.conn.WaitOut(1, 60*time.Second) {
+			fail("query %d never written", i)
+		}
+		h.flush(false)
+		h.cancelCall(c)
+		if !h.ret(c, 60*time.Second) {
+			fail("cancelled query did not return")
+		}
+	}
+	h.cancelCall(held)
+	h.ret(held, 60*time.Second)
+	h.flush(true)
 }
